@@ -315,6 +315,69 @@ func c09Families(tier string) []explore.Family {
 		r.State("scaled")
 	}})
 
+	// values that SHARE storage: sub-slices of one backing array, the same map object twice, a slice next to a copy
+	// of itself. Equality and contains look at contents, never at addresses.
+	type shCase struct {
+		name, expr string
+		bind       func() map[string]any
+		want       bool
+	}
+	items := func() []any { return []any{"x", "y", "z"} }
+	shCases := []shCase{
+		{"[it[:1], it[:3]] == [it[:1], it[:1]]", "a == b", func() map[string]any {
+			it := items()
+			return map[string]any{"a": []any{it[:1], it[:3]}, "b": []any{it[:1], it[:1]}}
+		}, false},
+		{"[it[:1], it[:1]] == [it[:1], it[:3]]", "a == b", func() map[string]any {
+			it := items()
+			return map[string]any{"a": []any{it[:1], it[:1]}, "b": []any{it[:1], it[:3]}}
+		}, false},
+		{"[it[:2], it[:2]] == [it[:2], it[:2]]", "a == b", func() map[string]any {
+			it := items()
+			return map[string]any{"a": []any{it[:2], it[:2]}, "b": []any{it[:2], it[:2]}}
+		}, true},
+		{"[it[:1], it[:3]] != [it[:1], it[:1]]", "a != b", func() map[string]any {
+			it := items()
+			return map[string]any{"a": []any{it[:1], it[:3]}, "b": []any{it[:1], it[:1]}}
+		}, true},
+		{"[[it[:1], it[:3]]] contains [it[:1], it[:1]]", "a contains b", func() map[string]any {
+			it := items()
+			return map[string]any{"a": []any{[]any{it[:1], it[:3]}}, "b": []any{it[:1], it[:1]}}
+		}, false},
+		{"it[0:2] == it[1:3]", "a == b", func() map[string]any { it := items(); return map[string]any{"a": it[0:2], "b": it[1:3]} }, false},
+		{"it == it (same slice)", "a == b", func() map[string]any { it := items(); return map[string]any{"a": it, "b": it} }, true},
+		{"it[:0] == it[3:]", "a == b", func() map[string]any { it := items(); return map[string]any{"a": it[:0], "b": it[3:]} }, true},
+		{"[m, m] == [m, m2] (m2 differs)", "a == b", func() map[string]any {
+			m, m2 := map[string]any{"k": 1}, map[string]any{"k": 2}
+			return map[string]any{"a": []any{m, m}, "b": []any{m, m2}}
+		}, false},
+		{"[m, m2] == [m, m] (m2 differs)", "a == b", func() map[string]any {
+			m, m2 := map[string]any{"k": 1}, map[string]any{"k": 2}
+			return map[string]any{"a": []any{m, m2}, "b": []any{m, m}}
+		}, false},
+		{"[s, s] contains copy of s", "a contains b", func() map[string]any {
+			it := items()
+			return map[string]any{"a": []any{it, it}, "b": []any{"x", "y", "z"}}
+		}, true},
+		{"nested three deep, last leaf differs", "a == b", func() map[string]any {
+			it := items()
+			return map[string]any{"a": []any{[]any{it[:2], []any{it[:2]}}, []any{it[:2], []any{it[:3]}}}, "b": []any{[]any{it[:2], []any{it[:2]}}, []any{it[:2], []any{it[:2]}}}}
+		}, false},
+	}
+	fams = append(fams, explore.Family{Name: "values-sharing-storage", Count: int64(len(shCases)), Run: func(i int64, r *explore.Rec) {
+		c := shCases[i]
+		src := "{% if " + c.expr + " %}T{% else %}F{% endif %}"
+		r.Eval()
+		r.Transition()
+		r.Trace()
+		o := Render(c09.eng, src, c.bind())
+		want := map[bool]string{true: "T", false: "F"}[c.want]
+		r.Class("shared-storage/" + want)
+		if o.Panic != nil || o.Err != nil || o.Out != want {
+			r.Violation("rule:shared-storage", map[string]any{"template": src, "values": c.name}, want, o.String())
+		}
+	}})
+
 	// boolean structure over the truthiness universe
 	tv := []struct {
 		name string
